@@ -95,6 +95,18 @@ def lazy_source(reg, n, keyfn, kind):
         return gen()
     if kind == "iter":
         return (reg.new(keyfn(i)) for i in range(n))
+    if kind == "sized-sync":
+        class Dataset:
+            """a regular, re-iterable collection that knows its length but makes its rows only when it is iterated
+            (a lazy dataset): sized, not a sequence - and certainly nothing to copy up front"""
+
+            def __len__(self):
+                return n
+
+            def __iter__(self):
+                return (reg.new(keyfn(i)) for i in range(n))
+
+        return Dataset()
 
     class Src:
         def __init__(self):
@@ -187,7 +199,7 @@ def stream_cases(draw, name, tier):
             "k": draw(st.integers(1, 6) if name not in ("batched", "nlargest", "nsmallest")
                       else st.one_of(st.integers(1, 6), st.integers(7, 40))),
             "flag": draw(st.booleans()),
-            "src": draw(st.sampled_from(["agen", "aclass", "iter", "sized"])),
+            "src": draw(st.sampled_from(["agen", "aclass", "iter", "sized", "sized-sync"])),
             "keys": draw(st.sampled_from(["inc", "const", "mod"]))}
 
 
@@ -280,6 +292,22 @@ def check_stream(case):
                     # a live stream reporting its current backlog as its length (like a queue)
                     Probing.__len__ = lambda self: min(2, n - self.i)
                 return Probing()
+
+            if case["src"] == "sized-sync":
+                def rows():
+                    for i in range(n):
+                        if i % 10 == 0 and i:
+                            probe(i)
+                        yield reg.new(keyfn(i))
+
+                class ProbingDataset:
+                    def __len__(self):
+                        return n
+
+                    def __iter__(self):
+                        return rows()
+
+                return ProbingDataset()
 
             async def gen():
                 for i in range(n):
